@@ -85,10 +85,12 @@ def main():
             for c in checks:
                 rc, o = sh("VERIF_REPO=%s ./run.sh check %s %s" % (wt, c, tier), cwd="/verif")
                 keys = re.findall(r"^\s+key=(\S+)", o, re.M)
-                det[c] = {"exit": rc, "violation_keys": keys}
+                det[c] = {"exit": rc, "violation_keys": keys, "violation_lines": len(re.findall(r"^VIOLATION ", o, re.M))}
+                if rc != 0 and not det[c]["violation_lines"]:
+                    det[c]["error_output"] = o[-600:]
                 ev = "/verif/evidence/%s.json" % c
             res["checks"] = det
-            res["detected"] = any(v["exit"] == 1 for v in det.values())
+            res["detected"] = any(v["exit"] == 1 and v["violation_lines"] > 0 for v in det.values())
         shutil.copy(pf, out + "/patch.diff")
         if skip_suite and os.path.exists(out + "/meta.json"):
             try:
